@@ -27,14 +27,57 @@ from ovc import engine as eng
 # ---------------------------------------------------------------------------
 # (a) translation validation of emitted straight-line code
 
+def _c_statements(code):
+    """Split emitted C into statements: `//` comments dropped, statements end at
+    a `;` outside parentheses.  Raises ValueError if the text is not a sequence
+    of `;`-terminated assignments `<lvalue> = <expression>` (C has no
+    line-based statement end: a missing `;` merges two assignments)."""
+    text = '\n'.join(line.split('//', 1)[0] for line in code.splitlines())
+    stmts, cur, depth = list(), list(), 0
+    for ch in text:
+        if ch == '(':
+            depth += 1
+        elif ch == ')':
+            depth -= 1
+            if depth < 0:
+                raise ValueError('unbalanced parenthesis in emitted C')
+        if ch == ';' and depth == 0:
+            stmts.append(''.join(cur).strip())
+            cur = list()
+        else:
+            cur.append(ch)
+    if depth != 0:
+        raise ValueError('unbalanced parenthesis in emitted C')
+    if ''.join(cur).strip():
+        raise ValueError('emitted C ends in a statement that is not terminated by ";": '
+                         + ''.join(cur).strip()[:80])
+    for st in stmts:
+        # exactly one assignment operator outside parentheses
+        d, n_assign, k = 0, 0, 0
+        while k < len(st):
+            ch = st[k]
+            if ch == '(':
+                d += 1
+            elif ch == ')':
+                d -= 1
+            elif ch == '=' and d == 0:
+                if st[k:k + 2] == '==':
+                    k += 1
+                elif k > 0 and st[k - 1] in '!<>':
+                    pass
+                else:
+                    n_assign += 1
+            k += 1
+        if n_assign != 1:
+            raise ValueError(f'emitted C statement is not a single assignment ({n_assign} "=" outside parentheses): '
+                             + ' '.join(st.split())[:100])
+    return stmts
+
+
 def _c_to_py(code):
     out = list()
-    for line in code.splitlines():
-        if line.strip().startswith('//'):
-            continue
-        line = line.rstrip()
-        if line.endswith(';'):
-            line = line[:-1]
+    for st in _c_statements(code):
+        line = ' '.join(st.split())
         line = line.replace('&&', ' and ').replace('||', ' or ')
         line = re.sub(r'!(?!=)', ' not ', line)
         line = re.sub(r'\btrue\b', 'True', line)
@@ -111,9 +154,9 @@ def _tt_term(bdd, u, z):
 
 def validate_program(code, roots, bdd, lang, bit_of_expr, z):
     """Return (n_outputs, [disagreements])."""
-    text = _c_to_py(code) if lang == 'c' else code
     sem = CodeSem(bit_of_expr)
     try:
+        text = _c_to_py(code) if lang == 'c' else code
         out = sem.run(text)
     except Exception as e:
         return 0, [dict(name='emitted code is well-formed straight-line code',
@@ -240,7 +283,7 @@ def h_dumps_node(run, functions):
             lines, latches = list(), set()
             renaming = {'bitx': 'bitvectors["x"][2]'} if ren else dict()
             f(nid, lines, latches, syntax, _M({nid: node}), renaming)
-            code = '\n'.join(lines)
+            code = '\n'.join(cg._append_sep(ln, syntax) for ln in lines)
             text = _c_to_py(code) if lang == 'c' else code
             L3, L5, BX = z3.Bool('latch_3'), z3.Bool('latch_5n' if nid < 0 else 'latch_5'), z3.Bool('bitx')
             sem = CodeSem(lambda e: BX)
